@@ -246,6 +246,38 @@ func runC12(c *an.Ctx) {
 			})
 			c.Check("K2", "enqueue(waiters=append)@"+an.FnName(fn)+":oversize-rejected", st.Pos(), ok,
 				"a request larger than maxSize must be rejected before it is queued (it could never be served: stall); "+c.WitnessString(w))
+			// lost wake-up: the decision to wait and the enqueue are one critical section.  After every
+			// acquisition of the mutex the capacity test must be crossed again before the waiter is queued;
+			// otherwise a Release between test and enqueue finds an empty queue and the waiter sleeps forever.
+			nLock := 0
+			var lostW *an.Witness
+			an.Instrs(fn, func(in ssa.Instruction) {
+				if in.Parent() != fn || lostW != nil {
+					return
+				}
+				if _, acq, isLock := an.LockOp(in); isLock && acq {
+					nLock++
+					lostW = an.Query{Fn: fn, After: in, Target: func(x ssa.Instruction) bool { return x == ssa.Instruction(st) },
+						BarrierEdge: func(from, to *ssa.BasicBlock) bool {
+							cnd, t, ok := an.EdgeCond(from, to)
+							if !ok {
+								return false
+							}
+							r := an.Normalize(cnd, t)
+							switch r.Op {
+							case token.GEQ, token.LSS, token.LEQ, token.GTR:
+								return (isAvail(r.X) && r.Y == amountParam) || (isAvail(r.Y) && r.X == amountParam)
+							}
+							return false
+						}}.Find()
+				}
+			})
+			if nLock > 0 {
+				c.Check("K5", "enqueue(waiters=append)@"+an.FnName(fn)+":decided-under-same-lock", st.Pos(), lostW == nil,
+					"after each acquisition of the mutex the capacity test (curSize-reserved vs the amount) must be crossed before the waiter is queued; a queue insertion based on a test made in an earlier critical section loses the wake-up of an intervening Release; "+c.WitnessString(lostW))
+			} else {
+				c.Undecided("K5", "enqueue(waiters=append)@"+an.FnName(fn)+":decided-under-same-lock", st.Pos(), "no mutex acquisition found in the enqueuing function")
+			}
 		}
 	}
 	c.Floor("K2", "enqueue sites (append to waiters)", nAppend, 1)
